@@ -75,7 +75,8 @@ def errOfCErr : CErr → Option GoErr
 
 /-- `connector.checkHeaders` (the whole function) = `Hs.checkHeaders` -/
 theorem checkHeaders_eq (key : Str) (resp : Resp) :
-    Trans.connector_checkHeaders (resp.status : Int) resp.header key = (checkHeaders key resp).bind errOfCErr := by
+    Trans.connector_checkHeaders (resp_StatusCode := (resp.status : Int)) (resp_Header := resp.header) (c_secWebsocketKey := key)
+      = (checkHeaders key resp).bind errOfCErr := by
   unfold Trans.connector_checkHeaders checkHeaders
   rw [HttpHeaderContainsToken_eq]
   simp only [kConnection_def, kUpgrade_def, kAccept_def]
@@ -120,7 +121,7 @@ def requestChecks (r : Request) : Option SErr :=
   if foldEq (get r.header kUpgrade) (asc "websocket") = false then some .handshake else none
 
 theorem requestChecks_eq (r : Request) :
-    Trans.Upgrader_requestChecks r.method r.header =
+    Trans.Upgrader_requestChecks (r_Method := r.method) (r_Header := r.header) =
       (match requestChecks r with
        | some e => .error ((), errOfSErr e)
        | none => .ok ()) := by
@@ -170,7 +171,8 @@ theorem keyAndAccept_eq (h : Header) (b : Bytes) :
 
 /-- `responseWriter.WithSubProtocol` = `RW.withSubProtocol`, the buffer holding the rendered lines behind any prefix -/
 theorem WithSubProtocol_eq (rw : RW) (requestHeader : Header) (expected : List Str) (pre : Bytes) :
-    Trans.responseWriter_WithSubProtocol requestHeader expected rw.subprotocol (rw.err.bind errOfSErr) (pre ++ renderLines rw.lines) =
+    Trans.responseWriter_WithSubProtocol requestHeader expected (c_subprotocol := rw.subprotocol) (c_err := rw.err.bind errOfSErr)
+        (c_b := pre ++ renderLines rw.lines) =
       (pre ++ renderLines (rw.withSubProtocol requestHeader expected).lines,
        (rw.withSubProtocol requestHeader expected).err.bind errOfSErr,
        (rw.withSubProtocol requestHeader expected).subprotocol) := by
